@@ -64,6 +64,20 @@ class ByteFsm:
                             self.i = l
         if self.i is None:
             raise AnalysisError('%s: cursor variable not found' % f.id)
+        # body entry: the in-loop successor of the loop condition (so that code between the loop test and the state
+        # dispatch, e.g. `let c = data[i];`, is part of every evaluated step)
+        self.body = self.D
+        loop = {b for b in f.reachable(self.H) if self.H in f.reachable(b)}
+        dom = f.dominators()
+        for b in sorted(dom[self.D], key=lambda x: len(dom[x])):
+            t = f.blocks[b]['term']
+            if b in loop and t['k'] == 'switch':
+                succs = f.succ[b]
+                stay = [x for x in succs if x in loop]
+                leave = [x for x in succs if x not in loop]
+                if len(stay) == 1 and leave and b != self.D:
+                    self.body = stay[0]
+                    break
         self.keys = []
         for fld in state_fields:
             # the place JSON used by MIR for (*_1).<fld>: take it from any statement/terminator mentioning it
@@ -88,6 +102,22 @@ class ByteFsm:
                 fl = [p['f'] for p in pl['p'] if isinstance(p, dict) and 'f' in p]
                 if pl['l'] == 1 and pl['p'] and pl['p'][0] == 'deref' and fl == [fld] and len(pl['p']) == 2:
                     return json.dumps(pl, sort_keys=True)
+        # accessed only through aliases of the state pointer (e.g. inside inlined methods): build the key from the
+        # projection element of any access to that field of the same struct
+        want_adt = re.sub(r'^&(\'\{?\w+\}? )?(mut )?', '', f.locals[1]['ty'])
+        for b in f.blocks:
+            for st in b['stmts']:
+                pls = [st['lhs']]
+                rv = st['rv']
+                for o in [rv.get('a'), rv.get('b')]:
+                    if o and o.get('k') in ('copy', 'move'):
+                        pls.append(o['place'])
+                if rv.get('place'):
+                    pls.append(rv['place'])
+                for pl in pls:
+                    for pr in pl['p']:
+                        if isinstance(pr, dict) and pr.get('f') == fld and pr.get('adt') == want_adt:
+                            return json.dumps({'l': 1, 'p': ['deref', pr]}, sort_keys=True)
         raise AnalysisError('%s: state field %s not found' % (f.id, fld))
 
     def frame_problems(self, allowed_calls=r'\[T\]>::len$|IntoIterator|fmt::|log::|__private_api|Arguments'):
@@ -152,7 +182,7 @@ class ByteFsm:
                 return None
             return None
         rets = set(f.return_blocks())
-        r = eval_region(f, self.D, env, menv=menv, assume_asserts=True, read_hook=hook, skip_calls=True, track_mem=True,
+        r = eval_region(f, self.body, env, menv=menv, assume_asserts=True, read_hook=hook, skip_calls=True, track_mem=True,
                         stop_at={self.H} | rets, max_steps=4000)
         kind, blk, env2 = r[0], r[1], r[2]
         menv2 = r[3] if len(r) > 3 else {}
